@@ -18,6 +18,29 @@ from fractions import Fraction
 M = 'Model.C06'
 
 
+def canon_src(fn):
+    """source text of a function with its LOCAL names (assigned inside the body, not parameters) renamed v0, v1, ... in order
+    of first assignment, docstrings and comments dropped: recognisers that compare text are then blind to renamed locals"""
+    import copy
+    fn = copy.deepcopy(fn)
+    params = {a.arg for a in fn.args.args}
+    order = []
+    for n in ast.walk(fn):
+        pass
+    class V(ast.NodeVisitor):
+        def visit_Name(self, n):
+            if isinstance(n.ctx, ast.Store) and n.id not in params and n.id not in order:
+                order.append(n.id)
+    for st in fn.body:          # statement order = assignment order
+        V().visit(st)
+    ren = {nm: f'v{k}' for k, nm in enumerate(order)}
+    for n in ast.walk(fn):
+        if isinstance(n, ast.Name) and n.id in ren:
+            n.id = ren[n.id]
+    fn.body = [st for st in fn.body if not (isinstance(st, ast.Expr) and isinstance(st.value, ast.Constant) and isinstance(st.value.value, str))]
+    return ast.unparse(fn)
+
+
 def fact3(g, name, source, node_fn, check):
     """a structural fact with three outcomes: check() -> True / False (positively recognised) or None
     (shape of the source not recognised: recorded as untranslatable, the hand model is assumed and the
@@ -856,27 +879,30 @@ def activation_items(g, ac):
         if r[0] != 'v':
             raise Untranslatable('Softmax.backprop does not return an array')
         subs_ok = all(sl in ('(:, np.newaxis)', ':, np.newaxis') for _, sl in t.subscripts)
-        fwd = get_def(ac, 'Softmax.forward')
-        fsrc = ast.unparse(fwd)
-        fwd_ok = ('xnorm = xx - xx.max(axis=1)[:, np.newaxis]' in fsrc and 'e_x = np.exp(xnorm)' in fsrc
-                  and 'norm = e_x.sum(axis=1)' in fsrc and 'self.out = e_x / norm[:, np.newaxis]' in fsrc
-                  and 'xx = x.reshape((-1, x.shape[-1]))' in fsrc)
-        if not (subs_ok and fwd_ok):
-            raise Untranslatable('Softmax.forward / broadcasting in backprop not in the recognised shape')
+        fsrc = canon_src(get_def(ac, 'Softmax.forward'))
+        fwd_ok = all(k in fsrc for k in ('v0 = x.reshape((-1, x.shape[-1]))', 'v1 = v0 - v0.max(axis=1)[:, np.newaxis]',
+                                         'v2 = np.exp(v1)', 'v3 = v2.sum(axis=1)', 'self.out = v2 / v3[:, np.newaxis]'))
+        if not subs_ok:
+            raise Untranslatable('broadcasting in Softmax.backprop not in the recognised shape')
+        softmax.fwd_ok = fwd_ok
         return (f'def softmaxBack {PAR} (n : Nat) (s g : Nat → K) : Nat → K :=\n{t.prefix()}  fun i => {r[1]}\n'
-                f'def softmaxBackBroadcastsOverLevels : Bool := {"true" if subs_ok else "false"}\n'
-                f'def softmaxFwdIsExpOverSumAlongLastAxis : Bool := {"true" if fwd_ok else "false"}\n')
-    g.item('Softmax', 'prysm/x/optym/activation.py:Softmax', lambda: get_def(ac, 'Softmax'), softmax,
+                f'def softmaxBackBroadcastsOverLevels : Bool := true\n')
+    g.item('Softmax.backprop', 'prysm/x/optym/activation.py:Softmax.backprop', lambda: get_def(ac, 'Softmax.backprop'), softmax,
            f'def softmaxBack {PAR} (n : Nat) (s g : Nat → K) : Nat → K := {M}.softmaxBack n s g\n'
-           'def softmaxBackBroadcastsOverLevels : Bool := true\ndef softmaxFwdIsExpOverSumAlongLastAxis : Bool := true\n')
+           'def softmaxBackBroadcastsOverLevels : Bool := true\n')
+    # the forward shape is its own (three-valued) item: an unrecognised forward no longer hides the backprop translation
+    fact3(g, 'softmaxFwdIsExpOverSumAlongLastAxis', 'prysm/x/optym/activation.py:Softmax.forward',
+          lambda: get_def(ac, 'Softmax.forward'), lambda: True if getattr(softmax, 'fwd_ok', False) else None)
 
     def gumbel():
         fn = get_def(ac, 'GumbelSoftmax.backprop')
         t = VecTr({'protograd': ('v', '(g i)'), 'self.tau': ('s', 'tau')},
                   funcs={'self.smax.backprop': lambda a: ('v', f'(softmaxBack n s (fun i => {a[0][1]}) i)')})
         (r,) = t.run(fn.body)
-        fsrc = ast.unparse(get_def(ac, 'GumbelSoftmax.forward'))
-        fwd_ok = 'y = x + g' in fsrc and 'yy = y / self.tau' in fsrc and 'return self.smax.forward(yy)' in fsrc
+        fsrc = canon_src(get_def(ac, 'GumbelSoftmax.forward'))
+        import re as _re
+        m_ = _re.search(r'(v\d+) = x \+ (v\d+)\n\s*(v\d+) = \1 / self\.tau\n\s*return self\.smax\.forward\(\3\)', fsrc)
+        fwd_ok = m_ is not None
         if not fwd_ok:
             raise Untranslatable('GumbelSoftmax.forward not in the recognised shape')
         return (f'def gumbelBack {PAR} (tau : K) (n : Nat) (s g : Nat → K) : Nat → K :=\n{t.prefix()}  fun i => {r[1]}\n'
@@ -894,9 +920,9 @@ def activation_items(g, ac):
         gsubs = [sl for base, sl in t.subscripts if base == 'grad']
         last = gsubs == ['(..., None)'] or gsubs == ['..., None'] or gsubs == ['(..., np.newaxis)'] or gsubs == ['..., np.newaxis']
         lsubs = [sl for base, sl in t.subscripts if base == 'levels']
-        fsrc = ast.unparse(get_def(ac, 'DiscreteEncoder.forward'))
-        fwd_ok = ('samples = self.est.forward(x)' in fsrc and 'tmp = samples * expanded_levels' in fsrc
-                  and 'return tmp.sum(axis=-1)' in fsrc and 'expanded_levels = levels[None, :]' in fsrc)
+        fsrc = canon_src(get_def(ac, 'DiscreteEncoder.forward'))
+        fwd_ok = all(k in fsrc for k in ('v0 = self.levels', 'v1 = v0[None, :]', 'v2 = self.est.forward(x)', 'v3 = v2 * v1',
+                                         'return v3.sum(axis=-1)'))
         second = gsubs in (['(:, None)'], [':, None'], ['(:, np.newaxis)'], [':, np.newaxis'])
         if not (fwd_ok and (last or second) and lsubs in (['(None, :)'], ['None, :'])):
             raise Untranslatable('DiscreteEncoder not in the recognised shape')
